@@ -181,6 +181,17 @@ def register(S):
     def btree_pull(ip, st, it):
         """advance a BTreeMap iterator: one generic element, then exhaustion (the loop body is analysed for an arbitrary element)"""
         from .sum_iter import END
+        m0 = ip.read_loc(st, it.get("map").loc) if isinstance(it.get("map"), RefVal) else None
+        if isinstance(m0, Opaque) and m0.kind == "btreemap" and m0.get("complete") and m0.get("keys") is not None and len(m0.get("keys")) == len(m0.get("cells")):
+            # a map whose whole contents are known: the iteration visits exactly its entries, in order
+            i = it.get("yielded")
+            if i >= len(m0.get("keys")):
+                return [(st, it, END)]
+            kcell = st.new_heap(m0.get("keys")[i])
+            vref = m0.get("cells")[i][1]
+            what = it.get("what")
+            v = RefVal(kcell, False) if what == "keys" else (RefVal(vref.loc, False) if what == "values" else TupleVal([RefVal(kcell, False), RefVal(vref.loc, False)]))
+            return [(st, it.set(yielded=i + 1), v)]
         if it.get("yielded") >= 1:
             return [(st, it, END)]
         s_some, s_none = st.copy(), st
